@@ -91,6 +91,12 @@ ConcurrentOutcome == Outcome("dial_refused", "GET")
 UnboundedInputs == {"request_head_line", "connect_rejection_body", "request_methods"}
 MemoryBoundMiB == 24
 
+\* Listener: what a crowd of clients that connect and stay does to the process - it runs out of file descriptors and accept
+\* fails (EMFILE, ENFILE) - or a connection that is aborted while it waits to be accepted (ECONNABORTED). The fault passes; the
+\* proxy must not "stop ... serving other connections": clients that come afterwards are served (command c12-accept).
+ListenerFaults == {"emfile", "enfile", "econnaborted"}
+ListenerOutcome == [o |-> "served", st |-> {200}]
+
 VARIABLE dummy
 GInit == dummy \in Cases
 GNext == FALSE /\ UNCHANGED dummy
